@@ -9,11 +9,15 @@ import (
 
 	"github.com/superfly/macaroon"
 	"github.com/superfly/macaroon/bundle"
+	"github.com/superfly/macaroon/flyio"
 
 	"verifharness/internal/coqw"
 	"verifharness/internal/cs"
 	"verifharness/internal/rng"
 )
+
+// the issuer location of the find/parse cases: the flyio permission location, so that the flyio wrappers can be compared
+const permLoc = flyio.LocationPermission
 
 func init() { props["C19"] = genC19 }
 
@@ -289,7 +293,7 @@ func genC19(c *ctx) {
 		var desc []string
 		var coqToks []string
 		for j := 0; j < k; j++ {
-			loc := rng.Pick(r, []string{"loc", "loc", "other", "loc2", "lo", ""})
+			loc := rng.Pick(r, []string{permLoc, permLoc, "other", flyio.LocationAuthentication, permLoc[:len(permLoc)-1], ""})
 			var tok []byte
 			var dec string
 			if r.P(1, 6) {
@@ -299,13 +303,13 @@ func genC19(c *ctx) {
 			} else {
 				mm, _ := macaroon.New(r.Bytes(3), loc, key)
 				tok, _ = mm.Encode()
-				dec = "(Some " + coqw.Bool(loc == "loc") + ")"
+				dec = "(Some " + coqw.Bool(loc == permLoc) + ")"
 			}
 			toks = append(toks, tok)
 			coqToks = append(coqToks, coqw.Pair(coqw.N(uint64(j)), dec))
 			desc = append(desc, fmt.Sprintf("%d:%s", j, dec))
 		}
-		_, pt, _, dt, _ := macaroon.FindPermissionAndDischargeTokens(toks, "loc")
+		_, pt, _, dt, _ := macaroon.FindPermissionAndDischargeTokens(toks, permLoc)
 		idx := func(l [][]byte) []uint64 {
 			var o []uint64
 			for _, x := range l {
@@ -322,7 +326,26 @@ func genC19(c *ctx) {
 			Desc: map[string]any{"op": "FindPermissionAndDischargeTokens", "tokens": desc, "impl_perm": idx(pt), "impl_dis": idx(dt)}, Class: "find", Nontrivial: true})
 		// the same tokens as a header through ParsePermissionAndDischargeTokens: exactly one permission token, for any number of tokens
 		hdr := macaroon.ToAuthorizationHeader(toks...)
-		one, ds, err := macaroon.ParsePermissionAndDischargeTokens(hdr, "loc")
+		one, ds, err := macaroon.ParsePermissionAndDischargeTokens(hdr, permLoc)
+		// the flyio wrappers are the same functions at the flyio permission location
+		wrapFail := ""
+		if fone, fds, ferr := flyio.ParsePermissionAndDischargeTokens(hdr); (ferr == nil) != (err == nil) || !bytes.Equal(fone, one) || len(fds) != len(ds) {
+			wrapFail = "flyio.ParsePermissionAndDischargeTokens disagrees with macaroon.ParsePermissionAndDischargeTokens at flyio.LocationPermission"
+		}
+		fb, ferr := flyio.ParseBundle(hdr)
+		bb, berr := bundle.ParseBundle(permLoc, hdr)
+		if (ferr == nil) != (berr == nil) || (fb != nil && bb != nil && fb.Header() != bb.Header()) {
+			wrapFail = "flyio.ParseBundle disagrees with bundle.ParseBundle at flyio.LocationPermission"
+		}
+		if fb != nil && wrapFail == "" {
+			// UUIDs / NonceEmails list exactly the permission tokens, in order
+			if got, want := len(flyio.UUIDs(fb)), fb.Count(flyio.IsPermissionToken); got != want {
+				wrapFail = fmt.Sprintf("flyio.UUIDs lists %d tokens, the bundle has %d permission tokens", got, want)
+			}
+			if got, want := len(flyio.NonceEmails(fb)), fb.Count(flyio.IsPermissionToken); got != want {
+				wrapFail = fmt.Sprintf("flyio.NonceEmails lists %d tokens, the bundle has %d permission tokens", got, want)
+			}
+		}
 		var pi uint64
 		if err == nil {
 			if ix := idx([][]byte{one}); len(ix) == 1 {
@@ -332,6 +355,6 @@ func genC19(c *ctx) {
 			}
 		}
 		st.Add(&cs.Case{Coq: coqw.App("KFindOne", coqw.List(coqToks), coqw.Bool(err == nil), coqw.N(pi), coqw.ListOf(idx(ds), coqw.N)),
-			Desc: map[string]any{"op": "ParsePermissionAndDischargeTokens", "tokens": desc, "header": hdr, "impl_ok": err == nil, "impl_perm": pi, "impl_dis": idx(ds)}, Class: fmt.Sprintf("find-one/%d", k), Nontrivial: true})
+			Desc: map[string]any{"op": "ParsePermissionAndDischargeTokens", "tokens": desc, "header": hdr, "impl_ok": err == nil, "impl_perm": pi, "impl_dis": idx(ds)}, Class: fmt.Sprintf("find-one/%d", k), Nontrivial: true, OracleFail: wrapFail})
 	}
 }
